@@ -18,6 +18,7 @@ from __future__ import annotations
 import concurrent.futures
 import itertools
 import math
+import multiprocessing
 
 import numpy as np
 
@@ -369,8 +370,49 @@ def hsize(h):
     return (len(h["events"]), sum(len(e[1]) for e in h["events"] if len(e) > 1 and isinstance(e[1], list)))
 
 
+def kinds_differ(obs, ok, upto):
+    return any(len(x["value"]) != len(y["value"]) or not all(vlib.same_float(p, q) for p, q in zip(x["value"], y["value"]))
+               or not vlib.same_float(x["previous"], y["previous"]) or x["exc"] != y["exc"] for x, y in list(zip(obs, ok))[:upto])
+
+
+def process(task):
+    """Everything that is done with one history on the implementation side (runs in a worker process)."""
+    group, h, do_kinds = task
+    notes = []
+    obs = run_real(h, "array")
+    kinds = ["array"]
+    r = oracle_check(h, obs, "array")
+    if r:
+        notes.append((r[0], r[1], "array"))
+    # the same history with one-element batches handed over as 0-d arrays / numpy.float64 scalars / Python floats
+    if do_kinds and any(e[0] in ("call", "disabled") and len(e[1]) == 1 for e in h["events"]):
+        # (observations after an empty batch are outside the property: compare the kinds only up to there)
+        upto = 1 + next((i for i, e in enumerate(h["events"]) if e[0] == "call" and not e[1]), len(h["events"]))
+        for kind in ("zerod", "float64", "pyfloat"):
+            ok = run_real(h, kind)
+            kinds.append(kind)
+            r2 = oracle_check(h, ok, kind)
+            if r2:
+                notes.append((r2[0], r2[1], kind))
+            elif kinds_differ(obs, ok, upto):
+                notes.append(("defuzzify:kind-dependence", f"{h['label']}: observations differ between a 1-d array and a {kind} result", kind))
+    rows = changed = 0
+    for e, o in zip(h["events"], obs[1:]):
+        if e[0] == "call" and o["exc"] is None:
+            rows += len(e[1])
+            changed += sum(1 for x, y in zip(e[1], o["value"]) if not vlib.same_float(x, y))
+    return {"notes": notes, "lit": coq_case(h, obs), "kinds": kinds, "rows": rows, "changed": changed,
+            "obs": [{k: o[k] for k in ("value", "previous", "fuzzy", "exc")} for o in obs]}
+
+
+def process_chunk(tasks):
+    return [process(t) for t in tasks]
+
+
 def run(ctx, build, verdict, ev):
     _harness()
+    workers = max(1, min(8, vlib.NPROC))
+    mp_pool = multiprocessing.get_context("fork").Pool(workers)  # forked before any helper thread exists
     seen = set()
     batch, batch_meta = [], []
     split_seen: dict = {}
@@ -398,8 +440,14 @@ def run(ctx, build, verdict, ev):
 
     def collect(wait_all):
         while pending and (wait_all or pending[0][0].done() or len(pending) > 1):
-            fut, meta = pending.pop(0)
+            fut, meta, lits, name = pending.pop(0)
             bad, log = fut.result()
+            if -1 in bad and "inconsistent assumptions" in log and not coq_failed[0]:
+                # another check rebuilt a library of the shared tree while this one was evaluating: rebuild (under the lock) and retry once
+                again = vlib.translate_and_make(COQ_TARGETS)
+                if again.ok:
+                    bad, log = vlib.run_coq_cases(ctx.work, name + "r", COQ_IMPORTS, [(CASE_TYPE, "c12_check", lits)], 1500)
+                    stats["coq_batches_retried"] = stats.get("coq_batches_retried", 0) + 1
             for i in bad:
                 if i < 0:
                     if not coq_failed[0]:
@@ -412,72 +460,71 @@ def run(ctx, build, verdict, ev):
         if not batch:
             return
         if not build.translation_errors and build.ok and not coq_failed[0]:
-            fut = pool.submit(vlib.run_coq_cases, ctx.work, f"c12_{batch_no[0]}", COQ_IMPORTS, [(CASE_TYPE, "c12_check", list(batch))], 1500)
-            pending.append((fut, list(batch_meta)))
+            lits, name = list(batch), f"c12_{batch_no[0]}"
+            fut = pool.submit(vlib.run_coq_cases, ctx.work, name, COQ_IMPORTS, [(CASE_TYPE, "c12_check", lits)], 1500)
+            pending.append((fut, list(batch_meta), lits, name))
             batch_no[0] += 1
             collect(False)
         batch.clear()
         batch_meta.clear()
 
-    for group, h in gen_histories(ctx):
-        key = hkey(h)
-        if key in seen:
-            continue
-        seen.add(key)
-        total += 1
-        obs = run_real(h, "array")
-        stats["kinds"]["array"] += 1
-        r = oracle_check(h, obs, "array")
-        if r:
-            note(r[0], r[1], h, "array")
-        # the same history with one-element batches handed over as 0-d arrays / numpy.float64 scalars
-        if (every == 1 or group in ("base", "wild") or total % every == 0) and any(e[0] in ("call", "disabled") and len(e[1]) == 1 for e in h["events"]):
-            # (observations after an empty batch are outside the property: compare the kinds only up to there)
-            upto = 1 + next((i for i, e in enumerate(h["events"]) if e[0] == "call" and not e[1]), len(h["events"]))
-            for kind in ("zerod", "float64", "pyfloat"):
-                ok = run_real(h, kind)
-                stats["kinds"][kind] += 1
-                r2 = oracle_check(h, ok, kind)
-                if r2:
-                    note(r2[0], r2[1], h, kind)
-                elif any(len(x["value"]) != len(y["value"]) or not all(vlib.same_float(p, q) for p, q in zip(x["value"], y["value"]))
-                         or not vlib.same_float(x["previous"], y["previous"]) or x["exc"] != y["exc"] for x, y in list(zip(obs, ok))[:upto]):
-                    note("defuzzify:kind-dependence", f"{h['label']}: observations differ between a 1-d array and a {kind} result", h, kind)
-        # split invariance, directly: the concatenated values of a sequence do not depend on the cut
-        if h.get("plain") and all(o["exc"] is None for o in obs):
-            cat = [x for o in obs[1:] for x in o["value"]]
-            k2 = (key[:5], h["seq"])
-            first = split_seen.setdefault(k2, (cat, h))
-            stats["split_comparisons"] += first[1] is not h
-            if len(first[0]) != len(cat) or not all(vlib.same_float(p, q) for p, q in zip(first[0], cat)):
-                note("defuzzify:split-dependence", f"{h['label']}: concatenated values {cat} differ from {first[0]} obtained with the cut {first[1]['label']}", h, "array")
-        batch.append(coq_case(h, obs))
-        batch_meta.append({"history": h, "observed": [{k: o[k] for k in ("value", "previous", "fuzzy", "exc")} for o in obs]})
-        # statistics
-        c = h["cfg"]
-        stats["groups"][group] = stats["groups"].get(group, 0) + 1
-        skey = f"lp={int(c['lock_previous'])},default={'nan' if c['default'] != c['default'] else c['default']},lr={int(c['lock_range'])}"
-        if group != "wild":
-            stats["settings"][skey] = stats["settings"].get(skey, 0) + 1
-        calls = [e for e in h["events"] if e[0] == "call"]
-        stats["n_calls"][len(calls)] = stats["n_calls"].get(len(calls), 0) + 1
-        stats["with_fault"] += any(e[0] in ("raise", "disabled", "nodefuzz") for e in h["events"])
-        stats["with_clear"] += any(e[0] == "clear" for e in h["events"])
-        stats["events"] += len(h["events"])
-        changed = 0
-        for e, o in zip(h["events"], obs[1:]):
-            if e[0] == "call" and o["exc"] is None:
-                stats["rows"] += len(e[1])
-                changed += sum(1 for x, y in zip(e[1], o["value"]) if not vlib.same_float(x, y))
-        stats["rows_changed_by_cascade"] += changed
-        nontrivial += changed > 0
-        if len(samples) < 6 and total % 3001 == 1:
-            samples.append({"history": h, "observed": [(o["value"], o["previous"], o["exc"]) for o in obs[1:]]})
-        if len(batch) >= BATCH:
-            flush()
-    flush()
-    collect(True)
-    pool.shutdown()
+    def absorb(tasks, keys):
+        nonlocal nontrivial
+        CH = 250
+        results = [r for part in mp_pool.map(process_chunk, [tasks[i : i + CH] for i in range(0, len(tasks), CH)]) for r in part]
+        for (group, h, _), key, res in zip(tasks, keys, results):
+            obs = res["obs"]
+            for sig, what, kind in res["notes"]:
+                note(sig, what, h, kind)
+            for k in res["kinds"]:
+                stats["kinds"][k] += 1
+            # split invariance, directly: the concatenated values of a sequence do not depend on the cut
+            if h.get("plain") and all(o["exc"] is None for o in obs):
+                cat = [x for o in obs[1:] for x in o["value"]]
+                k2 = (key[:5], h["seq"])
+                first = split_seen.setdefault(k2, (cat, h))
+                stats["split_comparisons"] += first[1] is not h
+                if len(first[0]) != len(cat) or not all(vlib.same_float(p, q) for p, q in zip(first[0], cat)):
+                    note("defuzzify:split-dependence", f"{h['label']}: concatenated values {cat} differ from {first[0]} obtained with the cut {first[1]['label']}", h, "array")
+            batch.append(res["lit"])
+            batch_meta.append({"history": h, "observed": obs})
+            c = h["cfg"]
+            stats["groups"][group] = stats["groups"].get(group, 0) + 1
+            skey = f"lp={int(c['lock_previous'])},default={'nan' if c['default'] != c['default'] else c['default']},lr={int(c['lock_range'])}"
+            if group != "wild":
+                stats["settings"][skey] = stats["settings"].get(skey, 0) + 1
+            calls = [e for e in h["events"] if e[0] == "call"]
+            stats["n_calls"][len(calls)] = stats["n_calls"].get(len(calls), 0) + 1
+            stats["with_fault"] += any(e[0] in ("raise", "disabled", "nodefuzz") for e in h["events"])
+            stats["with_clear"] += any(e[0] == "clear" for e in h["events"])
+            stats["events"] += len(h["events"])
+            stats["rows"] += res["rows"]
+            stats["rows_changed_by_cascade"] += res["changed"]
+            nontrivial += res["changed"] > 0
+            if len(samples) < 6 and (stats["events"] % 997 == 0 or not samples):
+                samples.append({"history": h, "observed": [(o["value"], o["previous"], o["exc"]) for o in obs[1:]]})
+            if len(batch) >= BATCH:
+                flush()
+
+    tasks, keys = [], []
+    try:
+        for group, h in gen_histories(ctx):
+            key = hkey(h)
+            if key in seen:
+                continue
+            seen.add(key)
+            total += 1
+            tasks.append((group, h, every == 1 or group in ("base", "wild") or total % every == 0))
+            keys.append(key)
+            if len(tasks) >= 250 * workers * 2:
+                absorb(tasks, keys)
+                tasks, keys = [], []
+        absorb(tasks, keys)
+        flush()
+        collect(True)
+    finally:
+        mp_pool.terminate()
+        pool.shutdown()
 
     for sig, f in sorted(found.items()):
         verdict.add_violation(sig, f"{f['what']}  [{f['count']} histories with this signature; smallest shown]", f["best"])
